@@ -11,6 +11,10 @@ hints = {
   (1) the breaking effect lives somewhere a reader tends to overlook: a deferred call, a closure that captures a variable, a method value or function stored in a field or table, a struct copied by value (the copy is updated, the original is not - or the reverse), an embedded struct, a helper with a value receiver, an init() function, a goroutine;
   (2) two cooperating edits in DIFFERENT files or packages that each look fine alone (a producer and a consumer that now disagree on a unit, an index base, a bit position, an order of calls);
   (3) a change in the ORDER in which things happen inside one machine cycle or one register access (which component sees which state first, a flag tested before instead of after it is updated, a value latched one step late), so that only a particular alignment exposes it.""",
+ "6": """This is the sixth round: the obvious places, 'accuracy improvements', initialisation/reset paths, hidden mechanisms (defer, closures, value receivers, init tables), cross-package disagreements and reorderings inside a machine cycle have been used. Prefer changes of these kinds, one of each if you can:
+  (1) a boundary of a counter, index or range: the wrap-around, the first or last element, an unsigned subtraction that underflows, a change of integer width or signedness, a comparison that is off only at one extreme value;
+  (2) defensive code added 'for robustness' - a guard, a clamp, an early return, an error path, a nil/zero check - that silently changes behaviour in a legitimate corner case;
+  (3) an encapsulation refactor - a getter/setter, a cached or lazily computed derived value, a dirty flag, a small state machine replacing booleans - where the derived value goes stale or one transition is missing on one rarely taken path.""",
 }
 os.makedirs(out, exist_ok=True)
 for l in open(os.path.join(here, "..", "properties.jsonl")):
